@@ -165,6 +165,20 @@ def run_case(case, rec):
     neg_mol = sum(v for v in expected.values() if v < 0)
     neg_mass = sum(MW[k[1] if isinstance(k, tuple) else k] * v for k, v in expected.items() if v < 0)
     neg = neg_mass if case['basis'] == 'wt' else neg_mol
+    # series reactions act on the running composition: a step that needs more than the running composition holds is infeasible even if a later step
+    # (running backwards on the negative amount) would bring the final flows back to zero
+    inter_neg = 0.0
+    if case['comb'] in ('series', 'system'):
+        groups = [('series', case['members'])] if case['comb'] == 'series' else [(m['k'], m['rx']) for m in case['members']]
+        fl = flows
+        for kind_, ds in groups:
+            if kind_ == 'series':
+                for d in ds:
+                    fl = R.model_apply(fl, d)
+                    inter_neg = min(inter_neg, min(list(fl.values()) + [0.0]))
+            else:
+                fl = model({'comb': 'parallel', 'members': ds}, fl) if kind_ == 'parallel' else R.model_apply(fl, ds[0])
+                inter_neg = min(inter_neg, min(list(fl.values()) + [0.0]))
     obj, read = make_target(case, th, flows, MW)
     tag = f'{case["comb"]}/{case["basis"]}/{"tagged" if case["tagged"] else "phase-less"}/{case["target"]}'
     rec.hit('target:' + case['target']); rec.hit(case['comb'])
@@ -178,12 +192,16 @@ def run_case(case, rec):
     except Exception as e:
         rec.exception('react', e, what=f'reaction call ({tag}) raised {type(e).__name__}: {str(e)[:200]}'); return
     if raised is not None:
+        if neg >= -1e-13 and inter_neg < -1e-13:
+            rec.hit('series:intermediate-infeasible'); rec.refuse('InfeasibleRegion (an intermediate composition of the series would be negative)'); return
         if neg < -1e-13:
             rec.ok('must-raise'); rec.refuse('InfeasibleRegion (model agrees: a flow would be negative)')
         else:
             rec.check(False, 'react', f'spurious-infeasible/{tag}', f'InfeasibleRegion raised although the dense model predicts no negative flow (most negative total {neg:.3g})',
                       detail={'expected': {str(k): v for k, v in expected.items()}})
         return
+    if inter_neg < -1e-9 and neg >= -1e-9:
+        rec.refuse('series passes through a negative intermediate composition but ends non-negative (outside the decided domain)'); return
     if neg < -1e-9:
         rec.check(False, 'must-raise', f'returned-negative/{tag}', f'call returned normally although the conversion requires a negative flow (predicted negative total {neg:.3g})',
                   detail={'expected': {str(k): v for k, v in expected.items()}, 'got': {str(k): v for k, v in read().items()}})
